@@ -134,9 +134,11 @@ CHECKS.update({
                  "what each containment mode means geometrically, nestedness, the size estimate being an upper bound.", "R-BW " + BW + "; R-GUARD " + G + "; R-WIT " + WIT),
  "C16": _partial("C16", "the memory clause: scratch arrays of normalizeMultiPolygon/findPolygonForHole and the duplicate-node path of addVertexNode are freed on every path "
                  "without double free; a local vertex graph is destroyed on every path once initialised; cellsToLinkedMultiPolygon destroys the result before returning an error; "
-                 "a hole that cannot be placed is freed; every struct type the builders allocate is freed in the call tree of destroyLinkedMultiPolygon / destroyVertexGraph.",
+                 "a hole that cannot be placed is freed and the hole loop is only left after every collected hole was visited; every struct type the builders allocate is freed in the call "
+                 "tree of destroyLinkedMultiPolygon / destroyVertexGraph; two structural necessary conditions of the hole placement (loop/bounding-box pairing, arrays forwarded with their length).",
                  "the outline itself: one polygon per component, winding, closedness, enclosed area (depends on bit-level agreement of vertex coordinates and a float hash).",
-                 "R-ALLOC allocation typestate; R-OWN ownership-protocol rules over LLVM IR (incl. L6: no object is handed to addNewLinkedPolygon twice, which would orphan a polygon)"),
+                 "R-ALLOC allocation typestate; R-OWN ownership-protocol rules over LLVM IR (incl. L6: no object is handed to addNewLinkedPolygon twice; L7: the hole loop visits every collected hole); "
+                 "R-SIB pairing rules (a loop keeps the bounding box it was tested with; candidate arrays are forwarded with their length)"),
  "C19": _partial("C19", "maxFaceCount = 5 for a pentagon else 2; getIcosahedronFaces initialises and writes only slots below that count (relation facts incl. the insertion loop); "
                  "face adjacency tables (T5, T9).",
                  "that the reported faces are exactly the intersected ones (overage geometry).", "R-CFORM " + CF + "; R-BW " + BW + "; R-TAB T5,T9 " + TAB),
